@@ -70,11 +70,12 @@ def compare(A, B, target, model: Model, *, val_opts=None, timeout_ms=20000,
     target   iterable of Index *objects* (sympy) that are fixed by tau
     """
     out = Outcome()
-    A, B = _sympy_of(A), _sympy_of(B)
+    refA = A if callable(A) and not hasattr(A, "args") else None
+    A, B = (None if refA else _sympy_of(A)), _sympy_of(B)
     t0 = time.time()
-    irA, irB = IR.expr_ir(A), IR.expr_ir(B)
+    irA, irB = ([] if refA else IR.expr_ir(A)), IR.expr_ir(B)
     vars_ = Vars()
-    spec = spec_from(irA, irB, extra=spec_extra)
+    spec = spec_from(irA, irB, *(getattr(refA, "irs", []) or []), extra=spec_extra)
     if valuation_factory is not None:
         val = valuation_factory(vars_, model, spec)
     else:
@@ -87,7 +88,7 @@ def compare(A, B, target, model: Model, *, val_opts=None, timeout_ms=20000,
         if max_assignments is not None and len(pairs) >= max_assignments:
             break
         try:
-            a = expr_value(irA, model, val, tau)
+            a = refA(model, val, tau) if refA else expr_value(irA, model, val, tau)
             b = expr_value(irB, model, val, tau)
         except Undefined:
             n_undefined += 1
@@ -127,7 +128,11 @@ def compare(A, B, target, model: Model, *, val_opts=None, timeout_ms=20000,
     for tau in cand:
         asg_obj = {tobj[k]: o for k, o in tau.items()}
         try:
-            va = eval_sympy(A, model, val, numeric, asg_obj)
+            if refA:
+                from sympy import nsimplify
+                va = nsimplify(numeric.ml(refA(model, val, tau)))
+            else:
+                va = eval_sympy(A, model, val, numeric, asg_obj)
             vb = eval_sympy(B, model, val, numeric, asg_obj)
         except ZeroDivisionError:
             continue
